@@ -39,8 +39,69 @@ def body_case(draw, tier='quick'):
             'pseed': draw(st.integers(0, 2 ** 31 - 1))}
 
 
+@st.composite
+def nested_body_case(draw, tier='quick'):
+    """The same bodies two universe levels down: universe 2 = {-b, +b.k,
+    +b -b.k} fills a sphere of universe 1, which fills a sphere of the real
+    world, each FILL with a transformation of its own.  A body is the solid
+    MCNP defines wherever the deck puts it."""
+    from .. import gen_hier
+    kind = draw(st.sampled_from(gen.MACROS))
+    k, p, labels = draw(gen.macro_params(kind))
+    b = gen_hier.Builder(draw, tier, {'lattice': False})
+    b.labels.update(labels)
+    b.labels.add('nested-two-levels')
+    flat = md.new_deck()
+    flat['surfaces'].append(md.surf(1, k, p))
+    bx = semcheck.deck_box(flat, floor=3.0)
+    r1 = 1.8 * bx + 2.5
+    r2 = r1 + 2.0
+    bid = b.add_surf(k, p)
+    s1 = b.add_surf('so', [r1])
+    s2 = b.add_surf('so', [r2])
+    u2, u1 = b.new_uid(), b.new_uid()
+    nf = mgeom.n_facets(k, p)
+    cells = [md.cell(b.new_cid(), 1, '-1.0', md.S(-bid), imp={'n': 1}, u=u2)]
+    facet = None
+    if nf > 1 and draw(st.booleans()):
+        facet = draw(st.integers(2 if k == 'trc' else 1, nf))
+        cells.append(md.cell(b.new_cid(), 2, '-2.0', md.F(bid, facet),
+                             imp={'n': 1}, u=u2))
+        cells.append(md.cell(b.new_cid(), 1, '-3.0',
+                             md.AND(md.S(bid), md.F(-bid, facet)),
+                             imp={'n': 1}, u=u2))
+        b.labels.add('nested-facet')
+    else:
+        cells.append(md.cell(b.new_cid(), 2, '-2.0', md.S(bid), imp={'n': 1},
+                             u=u2))
+    rots = ('generic', 'perm', 'flip', 'axis')
+    cells.append(md.cell(b.new_cid(), 0, None, md.S(-s1), imp={'n': 1}, u=u1,
+                         fill={'u': u2, 'tr': b.transform_ref(
+                             4.0, allow_none=False, rot_classes=rots)}))
+    cells.append(md.cell(b.new_cid(), 2, '-4.0', md.S(s1), imp={'n': 1},
+                         u=u1))
+    outer_tr = b.transform_ref(4.0, allow_none=False, rot_classes=rots)
+    outer = md.cell(b.new_cid(), 0, None, md.S(-s2), imp={'n': 1},
+                    fill={'u': u1, 'tr': outer_tr})
+    if draw(st.booleans()):
+        # the outer placement written as the TRCL of the container
+        outer['fill'] = {'u': u1, 'tr': None}
+        outer['trcl'] = outer_tr
+        b.labels.add('nested-outer-trcl')
+    cells.append(outer)
+    cells.append(md.cell(b.new_cid(), 0, None, md.S(s2), imp={'n': 0}))
+    if 'trcl' in outer:
+        # (the world sphere is centred on the origin: it moves with the TRCL)
+        pass
+    b.deck['cells'] = cells
+    return {'nested': True, 'gen': kind, 'kind': k, 'params': p,
+            'deck': b.deck, 'labels': sorted(b.labels), 'tier': tier,
+            'box': r2 + 1.5, 'pseed': draw(st.integers(0, 2 ** 31 - 1))}
+
+
 def strategy(tier):
-    return body_case(tier)
+    return st.one_of(body_case(tier), body_case(tier), body_case(tier),
+                     nested_body_case(tier))
 
 
 def budget(tier):
@@ -66,10 +127,14 @@ def build_deck(case):
 
 
 def render_case(case):
+    if case.get('nested'):
+        return mr.render(case['deck'])
     return mr.render(build_deck(case))
 
 
 def sample_repr(case, out):
+    if case.get('nested'):
+        return {'deck': mr.render(case['deck']), 'labels': out.labels}
     return {'card': '%d %s %s' % (case['sid'], case['kind'],
                                   ' '.join(mr.fnum(v) for v in case['params'])),
             'labels': out.labels}
@@ -85,7 +150,23 @@ def trc_agree_mask(params, P):
     return (t - tstar) * (0.5 - tstar) > 0
 
 
+def check_nested(case):
+    from . import c05
+    cmp_, viol, counts = c05.run_semantic(case, 'body-nested')
+    if viol is not None:
+        return viol
+    labels = ['kind:' + case['gen']] + list(case['labels'])
+    dec = cmp_.decided & cmp_.expected_in()
+    owners = set(int(cmp_.loc.owner[i]) for i in np.nonzero(dec)[0]
+                 if cmp_.loc.chain[i])
+    n_u2 = 3 if 'nested-facet' in case['labels'] else 2
+    return ok(labels, len(owners) >= n_u2 + 1,
+              sig=case_sig(mr.render(case['deck'])), counts=counts)
+
+
 def check(case):
+    if case.get('nested'):
+        return check_nested(case)
     deck = build_deck(case)
     text = mr.render(deck)
     labels = ['kind:' + case['gen']] + list(case['labels'])
